@@ -1227,8 +1227,9 @@ pub fn main() {
         if output.write_all(resp.as_bytes()).is_err() || output.write_all(b"\n").is_err() {
             return;
         }
-        // Nothing more buffered: the peer may be waiting for this answer (interactive use).
-        if input.buffer().is_empty() && output.flush().is_err() {
+        // every answer is flushed: when a later request never returns (or kills the process), the caller knows
+        // exactly which request that was
+        if output.flush().is_err() {
             return;
         }
     }
